@@ -9,6 +9,7 @@
 //   U <input> <sentinel frame> <ok|err|panic> <destination afterwards>
 //   J <frame> <JSON() bytes | PANIC> <json.Valid 0|1|-> <MarshalJSON()==JSON() 0|1|->
 //   M <frame> <json.Marshal([]Frame{f}) bytes | PANIC | ERR>
+//   C <container kind> <frame> <json.Marshal(container) bytes | PANIC | ERR> <ok|err|panic|-> <frames decoded back, comma separated | ->
 //   D <doc> <sentinel frame> <ok|err|panic> <destination afterwards> <json.Valid(doc) 0|1>
 //   E <arr|struct> <doc> <ok|err|panic> <frame | ->
 //   O-<routine> ...           direct observations of the library oracles
@@ -443,6 +444,136 @@ func emitM(f can.Frame) {
 	fmt.Fprintf(out, "M %s %s\n", fr(f), res)
 }
 
+// ---- a frame inside Go containers, marshalled and decoded back through encoding/json.
+// Value containers (by-value Frame, struct passed by value, map value, interface value) hold a
+// NON-addressable Frame: encoding/json finds MarshalJSON there only if it has a value receiver.
+
+type pair struct {
+	F can.Frame  `json:"f"`
+	P *can.Frame `json:"p"`
+}
+
+func frs(fs ...can.Frame) string {
+	var parts []string
+	for _, f := range fs {
+		parts = append(parts, fr(f))
+	}
+	return strings.Join(parts, ",")
+}
+
+func container(kind string, f can.Frame) (doc []byte, merr error, back func(doc []byte) (string, error)) {
+	f2 := f
+	switch kind {
+	case "value":
+		doc, merr = json.Marshal(f)
+		back = func(d []byte) (string, error) { var g can.Frame; err := json.Unmarshal(d, &g); return frs(g), err }
+	case "pointer":
+		doc, merr = json.Marshal(&f2)
+		back = func(d []byte) (string, error) {
+			var g *can.Frame
+			if err := json.Unmarshal(d, &g); err != nil || g == nil {
+				return "-", fmt.Errorf("nil or %v", err)
+			}
+			return frs(*g), nil
+		}
+	case "struct", "structptr":
+		v := pair{F: f, P: &f2}
+		if kind == "struct" {
+			doc, merr = json.Marshal(v)
+		} else {
+			doc, merr = json.Marshal(&v)
+		}
+		back = func(d []byte) (string, error) {
+			var g pair
+			if err := json.Unmarshal(d, &g); err != nil || g.P == nil {
+				return "-", fmt.Errorf("nil or %v", err)
+			}
+			return frs(g.F, *g.P), nil
+		}
+	case "slice":
+		doc, merr = json.Marshal([]can.Frame{f})
+		back = func(d []byte) (string, error) {
+			var g []can.Frame
+			if err := json.Unmarshal(d, &g); err != nil || len(g) != 1 {
+				return "-", fmt.Errorf("len or %v", err)
+			}
+			return frs(g[0]), nil
+		}
+	case "ptrslice":
+		doc, merr = json.Marshal([]*can.Frame{&f2})
+		back = func(d []byte) (string, error) {
+			var g []*can.Frame
+			if err := json.Unmarshal(d, &g); err != nil || len(g) != 1 || g[0] == nil {
+				return "-", fmt.Errorf("len or %v", err)
+			}
+			return frs(*g[0]), nil
+		}
+	case "map":
+		doc, merr = json.Marshal(map[string]can.Frame{"k": f})
+		back = func(d []byte) (string, error) {
+			var g map[string]can.Frame
+			if err := json.Unmarshal(d, &g); err != nil || len(g) != 1 {
+				return "-", fmt.Errorf("len or %v", err)
+			}
+			return frs(g["k"]), nil
+		}
+	case "iface":
+		var x interface{} = f
+		doc, merr = json.Marshal(x)
+		back = func(d []byte) (string, error) { var g can.Frame; err := json.Unmarshal(d, &g); return frs(g), err }
+	case "ifaceslice":
+		doc, merr = json.Marshal([]interface{}{f, []can.Frame{f}})
+		back = func(d []byte) (string, error) {
+			var g []json.RawMessage
+			if err := json.Unmarshal(d, &g); err != nil || len(g) != 2 {
+				return "-", fmt.Errorf("len or %v", err)
+			}
+			var a can.Frame
+			var b []can.Frame
+			if err := json.Unmarshal(g[0], &a); err != nil {
+				return "-", err
+			}
+			if err := json.Unmarshal(g[1], &b); err != nil || len(b) != 1 {
+				return "-", fmt.Errorf("len or %v", err)
+			}
+			return frs(a, b[0]), nil
+		}
+	}
+	return
+}
+
+var containerKinds = []string{"value", "pointer", "struct", "structptr", "slice", "ptrslice", "map", "iface", "ifaceslice"}
+
+func emitC(f can.Frame) {
+	for _, kind := range containerKinds {
+		line := func() (res string) {
+			defer func() {
+				if r := recover(); r != nil {
+					res = "PANIC - -"
+				}
+			}()
+			doc, err, back := container(kind, f)
+			if err != nil {
+				return "ERR - -"
+			}
+			dec := func() (res string) {
+				defer func() {
+					if r := recover(); r != nil {
+						res = "panic -"
+					}
+				}()
+				fs, err := back(doc)
+				if err != nil {
+					return "err -"
+				}
+				return "ok " + fs
+			}()
+			return hx(doc) + " " + dec
+		}()
+		fmt.Fprintf(out, "C %s %s %s\n", kind, fr(f), line)
+	}
+}
+
 type holder struct {
 	N int       `json:"n"`
 	F can.Frame `json:"f"`
@@ -500,12 +631,14 @@ func emitD(doc []byte, embed bool) {
 }
 
 var nJ int
+var containerEvery = 4
 
 func emitJ(f can.Frame) {
 	s, same, p := doJSON(f)
 	if p {
 		fmt.Fprintf(out, "J %s PANIC - -\n", fr(f))
 		emitM(f)
+		emitC(f)
 		return
 	}
 	fmt.Fprintf(out, "J %s %s %s %s\n", fr(f), hx([]byte(s)), b01(json.Valid([]byte(s))), b01(same))
@@ -513,6 +646,9 @@ func emitJ(f can.Frame) {
 	emitD([]byte(s), nJ%5 == 0)
 	if nJ%3 == 0 {
 		emitM(f)
+	}
+	if nJ%containerEvery == 0 {
+		emitC(f)
 	}
 }
 
@@ -805,6 +941,10 @@ func one(args []string) {
 		emitJ(parseFrame(args[1]))
 	case "M":
 		emitM(parseFrame(args[1]))
+	case "C":
+		if len(args) >= 3 {
+			emitC(parseFrame(args[2]))
+		}
 	case "U", "D":
 		if len(args) >= 3 {
 			sentinels = []can.Frame{parseFrame(args[2])}
@@ -847,6 +987,9 @@ func main() {
 	case "c15":
 		c15(arg(3, 1), arg(4, 40), arg(5, 20000))
 	case "c16":
+		if arg(6, 0) > 0 {
+			containerEvery = arg(6, 4)
+		}
 		c16(arg(3, 1), arg(4, 40), arg(5, 10000))
 	default:
 		os.Exit(2)
